@@ -746,6 +746,15 @@ impl<S: BitmapSlice + Send + Sync> FileSystem for PassthroughFs<S> {
             Self::create_file_excl(&dir_file, name, flags, args.mode & !(args.umask & 0o777))?
         };
 
+        // The file already exists: when seal_size is set, re-opening it with O_TRUNC below must
+        // not change its size.
+        if new_file.is_none()
+            && self.seal_size.load(Ordering::Relaxed)
+            && args.flags & (libc::O_TRUNC as u32) != 0
+        {
+            return Err(eperm());
+        }
+
         let entry = self.do_lookup(parent, name)?;
         let file = match new_file {
             // File didn't exist, now created by create_file_excl()
